@@ -16,7 +16,7 @@ Import ListNotations.
 Inductive errkind := EUnknownApp | EEncoding | EMissing.
 Inductive answer := Ok (inst : nat) (v : Z) | Err (k : errkind).
 
-Record request := { r_app : nat; r_payload : Z; r_badenc : bool; r_missing : bool }.
+Record request := { r_app : nat; r_payload : Z; r_badenc : bool; r_missing : bool; r_badaccept : bool }.
 Definition entry := (Z * bool)%type.                       (* decoded payload, features missing *)
 Inductive outcome := Success (v : Z) | Failure (k : errkind).
 
@@ -33,7 +33,9 @@ Section Serving.
     match inst_of (r_app (reqs r)) with
     | None => Err EUnknownApp
     | Some i => if r_badenc (reqs r) then Err EEncoding
-                else if r_missing (reqs r) then Err EMissing else Ok i (F i (r_payload (reqs r)))
+                else if r_missing (reqs r) then Err EMissing
+                else if r_badaccept (reqs r) then Err EEncoding      (* no encoder for what the caller accepts: fails in respond *)
+                else Ok i (F i (r_payload (reqs r)))
     end.
 
   Inductive phase :=
@@ -115,7 +117,8 @@ Section Serving.
         end
     | ARespond r =>
         match phases st r with
-        | Computed i v => Some {| phases := upd (phases st) r (Done (Ok i v)); execs := execs st |}
+        | Computed i v =>
+            Some {| phases := upd (phases st) r (Done (if r_badaccept (reqs r) then Err EEncoding else Ok i v)); execs := execs st |}
         | _ => None
         end
     end.
@@ -174,7 +177,7 @@ Definition answer_eqb (a b : answer) : bool :=
   end.
 Fixpoint nth_req (l : list request) (r : nat) : request :=
   match l, r with
-  | [], _ => {| r_app := 0; r_payload := 0; r_badenc := false; r_missing := false |}
+  | [], _ => {| r_app := 0; r_payload := 0; r_badenc := false; r_missing := false; r_badaccept := false |}
   | x :: _, 0 => x
   | _ :: t, S m => nth_req t m
   end.
